@@ -9,7 +9,8 @@ THOROUGH = dict(worlds=256, runs=3000, seconds=30)
 RULE = ("seeded cyclic blackbox-free circuits (1-3 feedback edges, no self-loops, <= 3 inputs, <= 16 nodes, up to 7 feedback edges); distinct = "
         "canonical net; non-trivial = the circuit has at least one stable state and one output inside or behind a cycle")
 PROBES = ["feedback_nodes>=2", "input_with_0_stable", "input_with_2+_stable", "two_sccs", "input_is_output"]
-ASSUMPTIONS = ["<= 3 inputs, <= 16 nodes (all 2^n node valuations are enumerated bit-parallel)"]
+ASSUMPTIONS = ["<= 3 inputs, <= 16 nodes (all 2^n node valuations are enumerated bit-parallel)",
+               "circuits without self-loops (the statement excludes them); node names aux_in_<f> and startpoint/output names c<i>_<n> are avoided: acyclic_unroll refuses them with ValueError"]
 
 
 def gen(rng, tier):
@@ -20,7 +21,8 @@ def gen(rng, tier):
                         types=G.swarm_types(rng), max_arity=rng.randint(2, 4) if big else rng.randint(2, 3),
                         constants=0.15, cyclic=(3, 7) if big else True,
                         name_style=rng.choice(("plain", "plain", "underscore")),
-                        input_outputs=rng.choice((0.0, 0.2)), min_outputs=1)
+                        input_outputs=rng.choice((0.0, 0.2)), min_outputs=1,
+                        self_loops=0.0)      # the statement is about circuits without self-loops
         if ref.is_cyclic(net):
             break
     return {"net": net, "peer": {"seed": rng.getrandbits(32)}}
